@@ -509,7 +509,7 @@ def _run(props, tier, seed, budget_s, scenarios, exe, tmp, t0):
     for sc in scs:
         for pre in sc[5]:
             cases1.append(case_line(sc, 'mode=rr pre=' + pre)); meta1.append((sc, 'directed'))
-        for j, spec in enumerate(_sched_strings(sc, 6, seed * 7 + 1, 60)):
+        for j, spec in enumerate(_sched_strings(sc, 4, seed * 7 + 1, 60)):
             cases1.append(case_line(sc, spec)); meta1.append((sc, 'calib'))
     ta = time.time()
     outs1 = vlib.run_cases(exe, cases1, tmp, 's1', timeout=600, env=env)
@@ -528,7 +528,7 @@ def _run(props, tier, seed, budget_s, scenarios, exe, tmp, t0):
     while done2 < cap:
         remaining = budget - (time.time() - t0)
         if rnd > 0 and remaining < 3: break
-        per = int(max(8 if rnd else 25, min(cap // len(scs) - done2 // len(scs), rate * max(remaining, 3.0) * (0.45 if rnd == 0 else 0.7) / len(scs))))
+        per = int(max(8 if rnd else 16, min(cap // len(scs) - done2 // len(scs), rate * max(remaining, 3.0) * (0.45 if rnd == 0 else 0.7) / len(scs))))
         cases2, meta2 = [], []
         for sc in scs:
             for spec in strings(sc, done2 // len(scs), per):
